@@ -154,6 +154,26 @@ def origin_args(outs):
     return {o.what for o in outs if o.kind == "arg"}
 
 
+def pointer_root_arg(body, local, depth=10):
+    """If `local` is (a move / reborrow chain of) a reference argument of the function, return that argument's local."""
+    cur = local
+    while depth > 0:
+        depth -= 1
+        if 1 <= cur <= body.arg_count:
+            return cur
+        ds = [d for d in body.defs.get(cur, []) if d[1] != "part"]
+        if len(ds) != 1 or ds[0][1] != "assign":
+            return None
+        rv = ds[0][2]["rv"]
+        if rv["k"] in ("ref", "rawptr") and rv["place"]["p"] == ["*"]:
+            cur = rv["place"]["l"]
+        elif rv["k"] == "use" and op_place(rv["op"]) is not None and not op_place(rv["op"])["p"]:
+            cur = op_place(rv["op"])["l"]
+        else:
+            return None
+    return None
+
+
 def guard_of_pointer(body, local, depth=10):
     """If `local` is the result of Deref::deref / DerefMut::deref_mut on a lock guard (or a
     reborrow chain of it), return the guard local; else None."""
